@@ -59,6 +59,7 @@ def main():
         env["ASAN_OPTIONS"] = "detect_leaks=0:abort_on_error=1:handle_segv=1:allocator_may_return_null=1"
         env["UBSAN_OPTIONS"] = "print_stacktrace=1:halt_on_error=1"
         env["VERIF_ASAN_ACTIVE"] = "1"
+        env["PYTHONMALLOC"] = "malloc"      # buffers the interpreter hands to the engine get real red zones too
         os.execve(sys.executable, [sys.executable] + sys.argv, env)
 
     if a.replay:
